@@ -65,43 +65,43 @@ fn plan(prop: &str) -> Option<Plan> {
     let p = match prop {
         "C01" => Plan {
             level: "exploration",
-            engines: vec![("regsim", 40_000, 4_000_000), ("tablesim", 20_000, 2_000_000)],
+            engines: vec![("regsim", 160_000, 16_000_000), ("tablesim", 100_000, 8_000_000)],
             rule: "regsim runs are generated from the run seed (type graph over 32 node types and a fixed corpus, client scripts, simulated network order, consumer chain); a run is non-trivial when its final registry is non-empty and it had at least two deliveries or a non-empty consumer chain; tablesim runs count when a duplicate arrived after unrelated insertions; distinct = distinct scenario hashes among the non-trivial runs",
         },
         "C02" => Plan {
             level: "exploration",
-            engines: vec![("regsim", 40_000, 4_000_000)],
+            engines: vec![("regsim", 160_000, 16_000_000)],
             rule: "non-trivial: at least two deliveries and the published registry contains a cycle or some delivered reference went through an alias wrapper; distinct = distinct scenario hashes among those",
         },
         "C05" => Plan {
             level: "exploration",
-            engines: vec![("regsim", 40_000, 4_000_000)],
+            engines: vec![("regsim", 160_000, 16_000_000)],
             rule: "non-trivial: at least two deliveries and either an identity that was already present was delivered again or a reference went through an alias wrapper; distinct = distinct scenario hashes among those",
         },
         "C10" => Plan {
             level: "exploration",
-            engines: vec![("regsim", 40_000, 4_000_000)],
+            engines: vec![("regsim", 160_000, 16_000_000)],
             rule: "non-trivial: the consumer chain contained a retain that kept some but not all entries; distinct = distinct scenario hashes among those",
         },
         "C11" => Plan {
             level: "exploration",
-            engines: vec![("regsim", 40_000, 4_000_000)],
-            rule: "non-trivial: at least two deliveries and the replica's delivery order differs from the owner's; distinct = distinct scenario hashes among those",
+            engines: vec![("regsim", 160_000, 16_000_000)],
+            rule: "non-trivial: at least two deliveries and either the replica's delivery order differs from the owner's or (fault-injecting configuration, 15% of the runs) a type_info() call unwound in the middle of a registration; distinct = distinct scenario hashes among those",
         },
         "C12" => Plan {
             level: "exploration",
-            engines: vec![("tablesim", 60_000, 8_000_000)],
+            engines: vec![("tablesim", 300_000, 30_000_000)],
             rule: "a run interleaves client scripts on one builder and one interner; non-trivial: a duplicate value arrived after unrelated insertions and the table holds at least two values; distinct = distinct scenario hashes among those",
         },
         "C07" => Plan {
             level: "exploration",
-            engines: vec![("wiresim", 12_000, 1_500_000)],
+            engines: vec![("wiresim", 30_000, 2_000_000)],
             rule: "a run writes 1-3 registries (random well-formed and ill-formed ones, registry publications, builder outputs, plus survivors of this run's fault cases) back to back through a chunked writer and reads them through four reader kinds; counted: distinct non-empty encodings that went through the fault-free configuration",
         },
         "C14" => Plan {
             level: "fault_enumeration",
-            engines: vec![("sweep", 48, 2_400), ("wiresim", 12_000, 1_500_000)],
-            rule: "sweep: for each frame of at most 2048 bytes every truncation point, every single-bit flip, an I/O error of 6 kinds at every offset and every targeted rewrite of every length / id / tag / option field; wiresim: seeded sequences of 1-3 faults per case on multi-frame streams and on JSON text / JSON values; a case is non-trivial when its fault changed the bytes (for SCALE: inside a frame); distinct = distinct (scenario, case) pairs among those",
+            engines: vec![("sweep", 96, 4_000), ("wiresim", 30_000, 2_000_000)],
+            rule: "sweep: for each frame of at most 2048 bytes every truncation point, every single-bit flip, an I/O error of 6 kinds at every offset and every targeted rewrite of every length / id / tag / option field, and on the JSON form of the same frame every single structural fault (18 replacement values at every node, deletion and renaming of every member, unknown and second-tag keys, array edits), every number token rewritten to 8 malformed / out-of-range numbers and every truncation of the text; wiresim: seeded sequences of 1-3 faults per case on multi-frame streams and on JSON text / JSON values; a case is non-trivial when its fault changed the bytes (for SCALE: inside a frame); distinct = distinct (scenario, case) pairs among those",
         },
         _ => return None,
     };
@@ -241,7 +241,7 @@ fn nontrivial_reg(prop: &str, flags: u32) -> bool {
         "C02" => multi && flags & (F_HAS_CYCLE | F_HAS_ALIAS) != 0,
         "C05" => multi && flags & (F_REDELIVERY | F_HAS_ALIAS) != 0,
         "C10" => flags & F_RETAIN_PARTIAL != 0,
-        "C11" => multi && flags & F_REORDERED != 0,
+        "C11" => multi && flags & (F_REORDERED | F_FAULTED) != 0,
         _ => flags & F_NONEMPTY != 0,
     }
 }
@@ -521,6 +521,27 @@ fn replay(path: &str, quiet: bool) -> i32 {
         eprintln!("unknown property {}", rf.property);
         return 2;
     };
+    if rf.kind == "crash" && rf.scenario.is_some() {
+        // execute the recorded scenario in a child process: it reproduces if the child dies or hangs
+        let attempt = Duration::from_secs(std::env::var("VERIF_CRASH_ATTEMPT_S").ok().and_then(|x| x.parse().ok()).unwrap_or(10));
+        let (end, _) = run_child(&["exec", path], attempt * 3);
+        return match end {
+            ChildEnd::Died | ChildEnd::Hung | ChildEnd::Violation => {
+                if !quiet {
+                    println!("replay: the scenario {} in a child process (recorded: {})", if end == ChildEnd::Hung { "hangs" } else if end == ChildEnd::Died { "kills the process" } else { "violates the property" }, rf.clause);
+                    println!("VIOLATION property={} replay={}", rf.property, path);
+                }
+                1
+            }
+            ChildEnd::Held => {
+                if !quiet {
+                    println!("replay: {} held on this tree (recorded: {} {})", rf.property, rf.clause, rf.detail);
+                }
+                0
+            }
+            ChildEnd::Error => 2,
+        };
+    }
     if rf.kind == "crash" {
         // re-run that run index in a child process; it reproduces if the child dies
         let exe = std::env::current_exe().expect("current exe");
@@ -609,6 +630,132 @@ fn replay(path: &str, quiet: bool) -> i32 {
             0
         }
     }
+}
+
+/// `sim exec <file>`: execute the scenario of a replay file in this process.
+/// Exit 0 held, 1 violation; a crash or hang shows as the death of the process.
+fn exec_file(path: &str) -> i32 {
+    core::install_panic_hook();
+    let Ok(text) = std::fs::read(path) else { return 2 };
+    let Ok(rf) = serde_json::from_slice::<ReplayFile>(&text) else { return 2 };
+    let Some(mask) = Mask::of(&rf.property) else { return 2 };
+    match rf.scenario {
+        Some(s) => match s.exec(mask) {
+            Some(_) => 1,
+            None => 0,
+        },
+        None => 2,
+    }
+}
+
+/// How a child process running one scenario ended.
+#[derive(PartialEq, Eq, Debug, Clone, Copy)]
+enum ChildEnd {
+    Held,
+    Violation,
+    Died,
+    Hung,
+    Error,
+}
+
+fn run_child(args: &[&str], limit: Duration) -> (ChildEnd, String) {
+    let exe = std::env::current_exe().expect("current exe");
+    let mut child = match Command::new(exe).args(args).stdout(Stdio::piped()).stderr(Stdio::piped()).spawn() {
+        Ok(c) => c,
+        Err(_) => return (ChildEnd::Error, String::new()),
+    };
+    let t0 = Instant::now();
+    loop {
+        match child.try_wait() {
+            Ok(Some(_)) => break,
+            Ok(None) if t0.elapsed() > limit => {
+                let _ = child.kill();
+                let _ = child.wait();
+                return (ChildEnd::Hung, String::new());
+            }
+            Ok(None) => std::thread::sleep(Duration::from_millis(10)),
+            Err(_) => return (ChildEnd::Error, String::new()),
+        }
+    }
+    let o = match child.wait_with_output() {
+        Ok(o) => o,
+        Err(_) => return (ChildEnd::Error, String::new()),
+    };
+    let out = String::from_utf8_lossy(&o.stdout).to_string();
+    let end = match o.status.code() {
+        Some(0) => ChildEnd::Held,
+        Some(1) => ChildEnd::Violation,
+        Some(2) => ChildEnd::Error,
+        _ => ChildEnd::Died,
+    };
+    (end, out)
+}
+
+fn crash_file(rf: &ReplayFile, dir: &Path, n: u32) -> PathBuf {
+    let p = dir.join(format!("cand-{}.json", n));
+    std::fs::write(&p, serde_json::to_vec(rf).unwrap()).expect("write candidate");
+    p
+}
+
+/// The worker for (engine, index) died or hung: obtain its scenario in a
+/// child process, minimise it with child-process executions (small budget:
+/// every attempt costs a process, a hanging one costs the attempt timeout)
+/// and write the replay file.
+fn report_crash(prop: &str, verif_seed: u64, engine: &str, idx: u64, why: &str, detail: String) -> (String, ReplayFile) {
+    let run_seed = rng::run_seed(verif_seed, engine_id(engine), idx);
+    let path = replay_path(prop, run_seed);
+    let mut rf = ReplayFile {
+        harness_version: HARNESS_VERSION,
+        property: prop.to_string(),
+        clause: format!("process.{}", why),
+        detail,
+        verif_seed,
+        engine: engine.to_string(),
+        run_index: idx,
+        run_seed,
+        kind: "crash".into(),
+        minimised: false,
+        minimiser_executions: 0,
+        original_size: 0,
+        size: 0,
+        scenario: None,
+    };
+    let attempt = Duration::from_secs(std::env::var("VERIF_CRASH_ATTEMPT_S").ok().and_then(|x| x.parse().ok()).unwrap_or(10));
+    let (end, out) = run_child(&["dump", engine, &verif_seed.to_string(), &idx.to_string()], attempt * 3);
+    if end == ChildEnd::Held {
+        if let Ok(scn) = serde_json::from_str::<Scenario>(&out) {
+            let dir = scratch_dir(&format!("crashmin-{}", std::process::id()));
+            rf.original_size = scn.size();
+            rf.scenario = Some(scn.clone());
+            let want_hang = why == "hang";
+            // the full scenario must show the failure in a child, or the file stays seed-only
+            let p0 = crash_file(&rf, &dir, 0);
+            let (e0, _) = run_child(&["exec", p0.to_str().unwrap()], if want_hang { attempt } else { attempt * 6 });
+            let bad = |e: ChildEnd| if want_hang { e == ChildEnd::Hung } else { e == ChildEnd::Died };
+            if bad(e0) {
+                let mut n = 0u32;
+                let mut probe_rf = rf.clone();
+                let (min, execs, accepted) = minimise::minimise_by(&scn, 60, Duration::from_secs(240), &mut |cand| {
+                    n += 1;
+                    probe_rf.scenario = Some(cand.clone());
+                    let p = crash_file(&probe_rf, &dir, n);
+                    let (e, _) = run_child(&["exec", p.to_str().unwrap()], attempt);
+                    let _ = std::fs::remove_file(p);
+                    bad(e)
+                });
+                rf.size = min.size();
+                rf.scenario = Some(min);
+                rf.minimised = accepted > 0;
+                rf.minimiser_executions = execs;
+            } else {
+                // not reproducible from the scenario alone: keep the seed-only form
+                rf.scenario = None;
+            }
+            let _ = std::fs::remove_dir_all(&dir);
+        }
+    }
+    std::fs::write(&path, serde_json::to_vec_pretty(&rf).unwrap()).expect("write replay");
+    (path.display().to_string(), rf)
 }
 
 // ---------------------------------------------------------------------------
@@ -789,7 +936,6 @@ fn check(prop: &str, tier: &str) -> i32 {
                     // a violation of the property being checked, at the run in its status file
                     let s = std::fs::read_to_string(dir.join(format!("status.{}.{}", engine, k))).unwrap_or_default();
                     let idx: u64 = s.split_whitespace().next().and_then(|x| x.parse().ok()).unwrap_or(0);
-                    let run_seed = rng::run_seed(verif_seed, engine_id(engine), idx);
                     let why = if stderr.contains("HANG") {
                         "hang".to_string()
                     } else if stderr.contains("ALLOC_CAP") {
@@ -799,32 +945,20 @@ fn check(prop: &str, tier: &str) -> i32 {
                     } else {
                         format!("died({:?})", other)
                     };
-                    let path = replay_path(prop, run_seed);
-                    std::fs::create_dir_all(path.parent().unwrap()).ok();
-                    let rf = ReplayFile {
-                        harness_version: HARNESS_VERSION,
-                        property: prop.to_string(),
-                        clause: format!("process.{}", why),
-                        detail: format!(
-                            "worker process for run {} of {} {}; stderr: {}",
-                            idx,
-                            engine,
-                            why,
-                            stderr.lines().rev().take(4).collect::<Vec<_>>().join(" | ")
-                        ),
-                        verif_seed,
-                        engine: engine.to_string(),
-                        run_index: idx,
-                        run_seed,
-                        kind: "crash".into(),
-                        minimised: false,
-                        minimiser_executions: 0,
-                        original_size: 0,
-                        size: 0,
-                        scenario: None,
-                    };
-                    std::fs::write(&path, serde_json::to_vec_pretty(&rf).unwrap()).expect("write replay");
+                    let detail = format!(
+                        "worker process for run {} of {} {}; stderr: {}",
+                        idx,
+                        engine,
+                        why,
+                        stderr.lines().rev().take(4).collect::<Vec<_>>().join(" | ")
+                    );
                     println!("violation: worker {} of {} {} at run index {}", k, engine, why, idx);
+                    if violation_line.is_some() {
+                        // one replay file per check is enough: minimising a crash costs processes
+                        continue;
+                    }
+                    let (path, rf) = report_crash(prop, verif_seed, engine, idx, &why, detail);
+                    let path = PathBuf::from(path);
                     println!("  {}", rf.detail);
                     let line = format!("VIOLATION property={} replay={}", prop, path.display());
                     if violation_line.is_none() {
@@ -962,14 +1096,14 @@ fn check(prop: &str, tier: &str) -> i32 {
 
 fn required_probes(prop: &str) -> &'static [&'static str] {
     match prop {
-        "C01" => &["reach.cycle_in_registry", "reach.node_referenced_only_through_type_parameter", "chain.retain", "chain.scale_round_trip", "chain.builder_rebuild", "events.builder_finish", "kind.bitsequence", "kind.compact", "kind.array"],
+        "C01" => &["checks.builder_finish_closed_for_disciplined_clients", "reach.builder_self_reference_protocol", "reach.cycle_in_registry", "reach.node_referenced_only_through_type_parameter", "chain.retain", "chain.scale_round_trip", "chain.builder_rebuild", "events.builder_finish", "kind.bitsequence", "kind.compact", "kind.array"],
         "C02" => &["reach.cycle_in_registry", "reach.alias_registered_before_target", "reach.node_referenced_only_through_type_parameter", "kind.variant", "kind.tuple"],
         "C05" => &["reach.redelivery_of_known_identity", "reach.duplicate_after_unrelated_registrations", "reach.alias_registered_before_target", "reach.register_many_same_type_twice", "fault.duplicate_delivery"],
         "C10" => &["reach.retain_partial", "reach.retain_kept_everything", "reach.retain_kept_nothing", "reach.retain_pulled_in_unaccepted_dependency", "reach.retain_kept_a_cycle_and_dropped_something"],
-        "C11" => &["reach.replica_order_differs", "checks.replay", "checks.replica_compared", "fault.reordered_delivery", "fault.duplicate_delivery"],
+        "C11" => &["fault.unwind_in_type_info.fired", "reach.registration_after_an_unwound_one", "checks.fault_injecting_configuration", "reach.replica_order_differs", "checks.replay", "checks.replica_compared", "fault.reordered_delivery", "fault.duplicate_delivery"],
         "C12" => &["reach.builder_duplicate_after_unrelated_inserts", "reach.builder_self_reference_through_next_type_id", "reach.builder_self_reference_deduplicated_to_older_index", "reach.builder_get_beyond_end", "reach.interner_resolve_out_of_range", "reach.interner_get_unknown", "reach.interner_duplicate_after_unrelated_inserts"],
-        "C07" => &["reach.remaining_len_none_path", "reach.io_reader_path", "benign.short_read", "benign.eintr_on_read", "benign.short_write", "checks.survivor_round_trip", "compact_class.frame_len.1byte", "compact_class.frame_len.2byte", "compact_class.frame_len.4byte"],
-        "C14" => &["fault.truncate.effective", "fault.flip_bit.effective", "fault.rewrite.vec_len.effective", "fault.rewrite.id.effective", "fault.rewrite.def_tag.effective", "fault.io_error_returned_to_decoder", "reach.decode_survived_a_fault_with_a_new_registry", "reach.decode_consumed_less_than_medium", "fault.json_structural.effective", "fault.json_structural.survived", "reach.io_error_inside_frames"],
+        "C07" => &["frame_source.many_types", "frame_source.bulk_collection", "reach.remaining_len_none_path", "reach.io_reader_path", "benign.short_read", "benign.eintr_on_read", "benign.short_write", "checks.survivor_round_trip", "compact_class.frame_len.1byte", "compact_class.frame_len.2byte", "compact_class.frame_len.4byte"],
+        "C14" => &["sweep.frames_swept", "sweep.single_faults.json_structural", "sweep.single_faults.json_text", "sweep.single_faults.targeted_rewrites", "fault.truncate.effective", "fault.flip_bit.effective", "fault.rewrite.vec_len.effective", "fault.rewrite.id.effective", "fault.rewrite.def_tag.effective", "fault.io_error_returned_to_decoder", "reach.decode_survived_a_fault_with_a_new_registry", "reach.decode_consumed_less_than_medium", "fault.json_structural.effective", "fault.json_structural.survived", "reach.io_error_inside_frames"],
         _ => &[],
     }
 }
@@ -1015,6 +1149,7 @@ fn main() {
         "check" => check(a(2), if a(3).is_empty() { "quick" } else { a(3) }),
         "worker" => worker(a(2), a(3), n(4), n(5), n(6), n(7).max(1), n(8), Path::new(a(9))),
         "replay" => replay(a(2), args.iter().any(|x| x == "--quiet")),
+        "exec" => exec_file(a(2)),
         "loghashes" => loghashes(a(2), n(3), n(4), n(5), n(6).max(1), n(7)),
         "dump" => match gen_scenario(a(2), n(3), n(4)) {
             Ok(s) => {
